@@ -23,7 +23,7 @@ RULE = ('async programs over every node type that can hold data past update() (b
         'latest, slice, flatten) with slow and failing consumers; every element has its own counter; non-trivial = at '
         'least one trigger observed and at least one asynchronous consumer call with service time > 0 or a failure; '
         'distinct by hash(case)')
-REQUIRED = ['triggers_observed', 'late_events_scanned', 'failed_elements_checked']
+REQUIRED = ['triggers_observed', 'late_events_scanned', 'failed_elements_checked', 'buffered_elements_checked_at_quiescence']
 ASSUMPTIONS = ['derivation is tracked by metadata identity (C10 checks that metadata follows the data)',
                'state kept by accumulate is not "derived data in flight"']
 INCONCLUSIVE_BUDGET = 0.03
@@ -178,10 +178,52 @@ def check_case(case, counters, sets):
     return ar, viols
 
 
+def check_sync_holders(case, counters, sets):
+    """Synchronous holders (partition, sliding_window, zip, combine_latest, collect with an explicit flush, feedback edges):
+    at every quiescent point -- after each emit has returned -- no element that the reference semantics still has buffered
+    in some node has had its completion signal.  (The run and the holder count are C05's synchronous machinery; only the
+    safety half is judged here: the signal while buffered.)"""
+    from .. import syncrun
+    res = syncrun.run_case(case['prog'], case['inputs'], mode=case['mode'], with_refs=True)
+    if res.hung:
+        return None, None
+    viols = []
+    if res.emit_errors:
+        return res, viols           # C01's business
+    uid2d = {ref.uid: d for did, (j, ref, d) in res.refs.items()}
+    seen = set()
+    for i, snap in res.quiescent:
+        for uid, (count, triggers, holders) in snap.items():
+            counters['buffered_elements_checked_at_quiescence'] = counters.get('buffered_elements_checked_at_quiescence', 0) + (1 if holders else 0)
+            if holders > 0 and triggers > 0 and uid not in seen:
+                seen.add(uid)
+                who = sorted(n.op for n in res.model.nodes.values() if any(m is uid2d[uid] for m in n.holds()))
+                key = 'C04:signal-while-buffered@%s' % ('+'.join(who) or 'holder-it-has-left-since')
+                if not any(v['key'] == key for v in viols):
+                    viols.append({'key': key, 'what': 'after emit #%d: the completion signal of element %s has been given (count %d) while '
+                                  'the reference semantics still has it buffered in %s' % (i, uid, count, who), 'case': case})
+    for s_ in case['prog']['nodes']:
+        sets.setdefault('node_types_seen', set()).add(s_['op'])
+    return res, viols
+
+
 def run_shard(seed, tier, shard, nshards):
     rng = random.Random('%s-%d-%d-%s' % (PID, seed, shard, tier))
     out = {'evaluations': 0, 'keys': [], 'violations': [], 'samples': [], 'counters': {},
            'sets': {}, 'inconclusive': []}
+    for k in range(n_cases(tier) // 2):
+        g = progs.Gen(rng, max_nodes=10)
+        prog = g.program()
+        inputs = g.inputs(prog, max_len=25)
+        for it in inputs:
+            it[2] = max(1, it[2])
+        case = {'sync_holders': True, 'prog': prog, 'inputs': inputs, 'mode': 'async' if rng.random() < 0.5 else 'plain'}
+        res, viols = check_sync_holders(case, out['counters'], out['sets'])
+        out['evaluations'] += 1
+        if viols is None:
+            out['inconclusive'].append('sync case %d: blocking emit did not return' % k)
+            continue
+        out['violations'].extend(viols)
     for k in range(n_cases(tier)):
         case = one_case(rng, tier)
         ar, viols = check_case(case, out['counters'], out['sets'])
@@ -200,5 +242,7 @@ def run_shard(seed, tier, shard, nshards):
 
 
 def replay(case):
+    if case.get('sync_holders'):
+        return check_sync_holders(case, {}, {})[1] or []
     _, viols = check_case(case, {}, {})
     return viols or []
